@@ -15,6 +15,11 @@
 (*            N4u disk_interface.save_block(X); N9 set_coinstate(coinstate_changed, validated=False)     bulk download, unvalidated *)
 (*          SaveAfterValidation = FALSE is the order before the repair of F-C09c (N4 directly after N3, on both paths);            *)
 (*          SelectiveClear = FALSE is R2 before the repair of F-C12d (write_buffer.clear(), not under the store's lock).           *)
+(*          AtomicRollback = FALSE is R1 before the second repair of F-C12d: the argument last_known_valid_coinstate was read       *)
+(*          (at the end of N5's step) before set_coinstate(it) was called -- and set_coinstate with its default validated=True      *)
+(*          also made that possibly stale state the last validated one.  TRUE: rollback_to_last_known_valid_coinstate() reads and   *)
+(*          installs under the lock.                                                                                                *)
+(*          N8 happens only when X became the head (fork choice is not modelled here): it may be skipped.                           *)
 (* "miner"  MinerWatcher (mining.py:214-271) for one found block B                                                                 *)
 (*            M1  self.coinstate, transactions = chain_manager.get_state()     request handler: the miner's snapshot               *)
 (*            M4  self.coinstate = self.coinstate.add_block(B, now)            result handler: B found on the snapshot             *)
@@ -27,7 +32,7 @@ EXTENDS Naturals, Sequences, FiniteSets
 CONSTANTS XValid,        \* the delivered block passes validation in its parent's state
           XValidated,    \* the delivered block is validated at all (relay delivery, or a bulk-download height that is validated)
           MinerOn,       \* a found block B is handled concurrently
-          SaveAfterValidation, SelectiveClear
+          SaveAfterValidation, SelectiveClear, AtomicRollback
 VARIABLES served, lastValid, buffer, disk, bcast, net, miner
 vars == << served, lastValid, buffer, disk, bcast, net, miner >>
 X == "X"
@@ -36,7 +41,7 @@ G == "G"
 Range(s) == {s[i] : i \in 1..Len(s)}
 
 Init == /\ served = {G} /\ lastValid = {G} /\ buffer = << >> /\ disk = {G} /\ bcast = {}
-        /\ net = [pc |-> "N1", prior |-> {}, changed |-> {}]
+        /\ net = [pc |-> "N1", prior |-> {}, changed |-> {}, tmp |-> {}]
         /\ miner = [pc |-> IF MinerOn THEN "M1" ELSE "done", snap |-> {}]
 
 NGo(p) == net' = [net EXCEPT !.pc = p]
@@ -47,15 +52,19 @@ N3 == /\ net.pc = "N3"
 N4 == /\ net.pc = "N4" /\ buffer' = Append(buffer, X)
       /\ NGo(IF ~XValidated THEN "N9" ELSE IF SaveAfterValidation THEN "N7" ELSE "N5")
       /\ UNCHANGED << served, lastValid, disk, bcast, miner >>
-N5 == net.pc = "N5" /\ NGo(IF XValid THEN "N6" ELSE "R1") /\ UNCHANGED << served, lastValid, buffer, disk, bcast, miner >>
-R1 == net.pc = "R1" /\ served' = lastValid /\ NGo("R2") /\ UNCHANGED << lastValid, buffer, disk, bcast, miner >>
+N5 == /\ net.pc = "N5" /\ net' = [net EXCEPT !.pc = IF XValid THEN "N6" ELSE "R1", !.tmp = lastValid]
+      /\ UNCHANGED << served, lastValid, buffer, disk, bcast, miner >>
+R1 == /\ net.pc = "R1" /\ NGo("R2")
+      /\ IF AtomicRollback THEN served' = lastValid /\ UNCHANGED lastValid
+         ELSE served' = net.tmp /\ lastValid' = net.tmp
+      /\ UNCHANGED << buffer, disk, bcast, miner >>
 R2 == /\ net.pc = "R2"
       /\ buffer' = IF SelectiveClear THEN SelectSeq(buffer, LAMBDA b : b \in lastValid) ELSE << >>
       /\ NGo("done") /\ UNCHANGED << served, lastValid, disk, bcast, miner >>
 N6 == /\ net.pc = "N6" /\ served' = net.changed /\ lastValid' = net.changed
       /\ NGo(IF SaveAfterValidation THEN "N4" ELSE "N7") /\ UNCHANGED << buffer, disk, bcast, miner >>
 N7 == net.pc = "N7" /\ disk' = disk \cup Range(buffer) /\ buffer' = << >> /\ NGo("N8") /\ UNCHANGED << served, lastValid, bcast, miner >>
-N8 == net.pc = "N8" /\ bcast' = bcast \cup {X} /\ NGo("done") /\ UNCHANGED << served, lastValid, buffer, disk, miner >>
+N8 == net.pc = "N8" /\ (bcast' = bcast \cup {X} \/ UNCHANGED bcast) /\ NGo("done") /\ UNCHANGED << served, lastValid, buffer, disk, miner >>
 N9 == net.pc = "N9" /\ served' = net.changed /\ NGo("done") /\ UNCHANGED << lastValid, buffer, disk, bcast, miner >>
 
 MGo(p) == miner' = [miner EXCEPT !.pc = p]
